@@ -117,6 +117,7 @@ type FnCtx struct {
 	noDecreases map[int]bool
 	mapRangeLoops int
 	inlineStack   []string
+	loopInitVar   map[token.Pos]*types.Var
 	sweepStrictClosures bool
 	keepRet       bool
 	pathsToReturn int
